@@ -115,6 +115,13 @@ def check_schedule(g, p, d, env_params, sh, report, prev_sched=None, extra_args=
     for i, t in enumerate(th[1:-1], start=1):
         for x in nearby(t):
             args.append((x, i, "near-threshold"))
+        # a ladder of relative offsets on both sides (tolerant comparisons in an interval look-up
+        # typically act within 1e-5 .. 1e-9 relative of a threshold)
+        tf = float(t)
+        for rel in (1e-12, 1e-9, 1e-7, 1e-6, 5e-6, 9e-6, 1e-4):
+            step = max(abs(tf), 1.0) * rel
+            args.append((tf - step, i, "near-threshold"))
+            args.append((tf + step, i, "near-threshold"))
     finite = [float(t) for t in th[1:-1]]
     for i in range(len(th) - 1):
         lo = finite[i - 1] if i >= 1 else (finite[0] - 1000.0 if finite else -1000.0)
